@@ -576,6 +576,35 @@ def storage_delete_problems():
     return problems
 
 
+def storage_reread_problems():
+    """a period stored, read, stored again (with and without a deletion in between) and read again gives the array stored last"""
+    import numpy
+    import shutil
+    import tempfile
+    from openfisca_core import periods as P
+    from openfisca_core.data_storage import InMemoryStorage, OnDiskStorage
+    problems = []
+    for kind in ("memory", "disk"):
+        for with_delete in (False, True):
+            d = tempfile.mkdtemp(prefix="pyvc_store_") if kind == "disk" else None
+            try:
+                st = OnDiskStorage(d) if kind == "disk" else InMemoryStorage()
+                p = P.period("2020-02")
+                st.put(numpy.array([1.0, 2.0]), p)
+                st.get(p)
+                if with_delete:
+                    st.delete(p)
+                st.put(numpy.array([3.0, 4.0]), p)
+                got = st.get(p)
+                if got is None or got.tolist() != [3.0, 4.0]:
+                    problems.append(f"[{kind} store] put, get, {'delete, ' if with_delete else ''}put again, get: reads {None if got is None else got.tolist()}, the array stored last is [3.0, 4.0]")
+            finally:
+                st = None
+                if d:
+                    shutil.rmtree(d, ignore_errors=True)
+    return problems
+
+
 def scenario_trace_values():
     """the value recorded for a request in the trace is the value that request returned - also when the same variable and period was
     traced before with another value (input deleted and given anew in between)"""
@@ -600,7 +629,7 @@ def scenario_trace_values():
 def run(call):
     try:
         which = call.get("scenarios") or ["precedence", "order", "order-trace", "order-disk", "order-blacklist", "failure", "failure-trace", "trace",
-                                          "delete", "delete-disk", "interrupt-and-cycle", "trace-values", "storage-delete", "spirals"]
+                                          "delete", "delete-disk", "interrupt-and-cycle", "trace-values", "storage-delete", "storage-reread", "spirals"]
         problems = []
         for s in which:
             if s == "precedence":
@@ -617,6 +646,8 @@ def run(call):
                 problems += scenario_interrupt_and_cycle()
             elif s == "storage-delete":
                 problems += storage_delete_problems()
+            elif s == "storage-reread":
+                problems += storage_reread_problems()
             elif s == "spirals":
                 problems += scenario_spirals()
             elif s.startswith("delete"):
